@@ -400,7 +400,7 @@ Proof.
 Qed.
 
 Inductive fn1 := FLength | FCount | FValue.
-Inductive fn2 := FMatch | FSearch.
+Inductive fn2 := FMatch | FSearch | FIn | FNin | FNoneOf | FAnyOf | FSubsetOf.   (* the last five: the crate's extension functions *)
 Definition fn1_name (k : fn1) : str :=
   match k with
   | FLength => [108; 101; 110; 103; 116; 104]%N
@@ -411,6 +411,11 @@ Definition fn2_name (k : fn2) : str :=
   match k with
   | FMatch => [109; 97; 116; 99; 104]%N
   | FSearch => [115; 101; 97; 114; 99; 104]%N
+  | FIn => [105; 110]%N
+  | FNin => [110; 105; 110]%N
+  | FNoneOf => [110; 111; 110; 101; 95; 111; 102]%N
+  | FAnyOf => [97; 110; 121; 95; 111; 102]%N
+  | FSubsetOf => [115; 117; 98; 115; 101; 116; 95; 111; 102]%N
   end.
 
 Lemma fn1_name_ok k : fname_ok (fn1_name k).
@@ -711,7 +716,7 @@ Section Atoms.
   Proof. unfold argstop, tstop_char. intros [-> | ->]; auto. Qed.
 
   Lemma ftext_head f tail : exists c t, ftext f ++ tail = c :: t /\ (97 <= c <= 122)%N.
-  Proof. destruct f as [[| |] a|[|] a b]; cbn [ftext fn1_name fn2_name app]; eexists _, _; (split; [reflexivity|lia]). Qed.
+  Proof. destruct f as [[| |] a|[| | | | | |] a b]; cbn [ftext fn1_name fn2_name app]; eexists _, _; (split; [reflexivity|lia]). Qed.
 
   Lemma argtext_not_ws a tail : argok a -> not_ws (argtext a ++ tail).
   Proof.
@@ -724,19 +729,19 @@ Section Atoms.
 
   Ltac peg_hook ::= base_hook.
   Lemma literal_fails_fn f tail pos : RunsG 40 (ECall R_literal) ANonAtomic (ftext f ++ tail) pos Fail.
-  Proof. destruct f as [[| |] a|[|] a b]; cbn [ftext fn1_name fn2_name app]; pegd_upto. Qed.
+  Proof. destruct f as [[| |] a|[| | | | | |] a b]; cbn [ftext fn1_name fn2_name app]; pegd_upto. Qed.
   Lemma rel_query_fails_fn f tail pos : RunsG 40 (ECall R_rel_query) ANonAtomic (ftext f ++ tail) pos Fail.
-  Proof. destruct f as [[| |] a|[|] a b]; cbn [ftext fn1_name fn2_name app]; pegd_upto. Qed.
+  Proof. destruct f as [[| |] a|[| | | | | |] a b]; cbn [ftext fn1_name fn2_name app]; pegd_upto. Qed.
   Lemma jp_query_fails_fn f tail pos : RunsG 40 (ECall R_jp_query) ANonAtomic (ftext f ++ tail) pos Fail.
-  Proof. destruct f as [[| |] a|[|] a b]; cbn [ftext fn1_name fn2_name app]; pegd_upto. Qed.
+  Proof. destruct f as [[| |] a|[| | | | | |] a b]; cbn [ftext fn1_name fn2_name app]; pegd_upto. Qed.
   Lemma singular_query_fails_fn f tail pos : RunsG 40 (ECall R_singular_query) ANonAtomic (ftext f ++ tail) pos Fail.
-  Proof. destruct f as [[| |] a|[|] a b]; cbn [ftext fn1_name fn2_name app]; pegd_upto. Qed.
+  Proof. destruct f as [[| |] a|[| | | | | |] a b]; cbn [ftext fn1_name fn2_name app]; pegd_upto. Qed.
   Lemma paren_fails_fn f tail pos : RunsG 40 (ECall R_paren_expr) ANonAtomic (ftext f ++ tail) pos Fail.
-  Proof. destruct f as [[| |] a|[|] a b]; cbn [ftext fn1_name fn2_name app]; pegd_upto. Qed.
+  Proof. destruct f as [[| |] a|[| | | | | |] a b]; cbn [ftext fn1_name fn2_name app]; pegd_upto. Qed.
 
   Lemma not_op_none_fn f tail pos :
     RunsG 10 (EOpt (ECall R_not_op)) ANonAtomic (ftext f ++ tail) pos (Ok (ftext f ++ tail) pos []).
-  Proof. destruct f as [[| |] a|[|] a b]; cbn [ftext fn1_name fn2_name app]; pegd_upto. Qed.
+  Proof. destruct f as [[| |] a|[| | | | | |] a b]; cbn [ftext fn1_name fn2_name app]; pegd_upto. Qed.
 
   Definition Pf (f : xfn) : Prop :=
     fok f -> forall rest pos,
@@ -783,7 +788,7 @@ Section Atoms.
       pose proof (argtext_not_ws b (41%N :: rest) Hokb) as Hnwb.
       assert (Hnw1 : not_ws (41%N :: rest)) by (cbn [not_ws]; repeat split; lia).
       assert (Hnw2 : not_ws (44%N :: argtext b ++ 41%N :: rest)) by (cbn [not_ws]; repeat split; lia).
-      assert (Hlen : length (fn2_name k) <= 6) by (destruct k; cbn [fn2_name length]; lia).
+      assert (Hlen : length (fn2_name k) <= 9) by (destruct k; cbn [fn2_name length]; lia).
       cbn [ftext fdep fpair]. repeat (rewrite <- app_assoc; cbn [app]).
       pegd_upto.
     - (* literal *)
@@ -908,7 +913,7 @@ Section Atoms.
 
   Lemma atom_alts_fail_negfn f tail pos :
     RunsG 40 (EAlt (ECall R_paren_expr) (ECall R_comp_expr)) ANonAtomic (33%N :: ftext f ++ tail) pos Fail.
-  Proof. destruct f as [[| |] a|[|] a b]; cbn [ftext fn1_name fn2_name app]; pegd_upto. Qed.
+  Proof. destruct f as [[| |] a|[| | | | | |] a b]; cbn [ftext fn1_name fn2_name app]; pegd_upto. Qed.
 
   (* ---------- logical expressions ---------- *)
   Inductive xatom :=
